@@ -527,6 +527,15 @@ func (x *Exec) havocTarget(p *Path, ctx *EvalCtx, target string, ghost bool, fc 
 		if base.T == nil {
 			ctx.fail("modifies: base has no type")
 		}
+		if base.K == KIface {
+			tkey = typeKey(base.T)
+			if tc := e.cs.Types[tkey]; tc != nil {
+				if gg := tc.Ghost[f]; gg != nil {
+					return tkey, gg, nil
+				}
+			}
+			ctx.fail("modifies: interface type %s has no ghost field %s", tkey, f)
+		}
 		pt, ok := base.T.Underlying().(*types.Pointer)
 		if !ok {
 			ctx.fail("modifies: base is not a pointer")
